@@ -14,6 +14,9 @@ pub trait LruFlavor: 'static {
     type S: HB;
     const NAME: &'static str;
     fn build<K: SimKey>(cap: usize, hs: &HasherSpec) -> Result<RawLRU<K, TV, Self::E, Self::S>, CacheError>;
+    fn convert<K: SimKey>(_ctor: u8, _n: usize) -> Option<RawLRU<K, TV, Self::E, Self::S>> {
+        None
+    }
 }
 pub struct FSim;
 pub struct FSimCb;
@@ -42,7 +45,61 @@ impl LruFlavor for FRs {
     fn build<K: SimKey>(cap: usize, _hs: &HasherSpec) -> Result<RawLRU<K, TV, Self::E, Self::S>, CacheError> {
         RawLRU::new(cap)
     }
+    /// conversions (L8): ctor 1.. build the cache from `n` pairs (k_i, v_{CONV_VAL_BASE+i})
+    fn convert<K: SimKey>(ctor: u8, n: usize) -> Option<RawLRU<K, TV, Self::E, Self::S>> {
+        use std::collections::{LinkedList, VecDeque};
+        let pairs = || -> Vec<(K, TV)> {
+            crate::alloc::harness_scope(|| (1..=n as u32).map(|i| (K::make(i), TV::new(CONV_VAL_BASE + i as u64))).collect())
+        };
+        Some(match ctor {
+            1 => RawLRU::from(pairs()),
+            2 => pairs().into_iter().filter(|_| true).collect(),
+            3 => {
+                let v = pairs();
+                let c = RawLRU::from(&v[..]);
+                crate::alloc::harness_scope(move || drop(v));
+                c
+            }
+            4 => {
+                let mut v = pairs();
+                let c = RawLRU::from(&mut v[..]);
+                crate::alloc::harness_scope(move || drop(v));
+                c
+            }
+            5 => RawLRU::from(pairs().into_iter().collect::<VecDeque<_>>()),
+            6 => RawLRU::from(pairs().into_iter().collect::<LinkedList<_>>()),
+            7 => {
+                // fixed-size arrays: N = 0, 1 or 3
+                let mut v = pairs();
+                match n {
+                    0 => {
+                        let a: [(K, TV); 0] = [];
+                        RawLRU::from(a)
+                    }
+                    1 => {
+                        let a: [(K, TV); 1] = [v.pop().unwrap()];
+                        RawLRU::from(a)
+                    }
+                    2 => {
+                        let b = v.pop().unwrap();
+                        let a0 = v.pop().unwrap();
+                        RawLRU::from([a0, b])
+                    }
+                    _ => {
+                        let rest = v.split_off(3);
+                        crate::alloc::harness_scope(move || drop(rest));
+                        let c = v.pop().unwrap();
+                        let b = v.pop().unwrap();
+                        let a0 = v.pop().unwrap();
+                        RawLRU::from([a0, b, c])
+                    }
+                }
+            }
+            _ => pairs().into_iter().collect(),
+        })
+    }
 }
+pub const CONV_VAL_BASE: u64 = 1_000_000;
 impl LruFlavor for FRsCb {
     type E = SimCallback;
     type S = DefaultHashBuilder;
@@ -62,6 +119,15 @@ impl<K: SimKey, F: LruFlavor> LruSubj<K, F> {
     pub fn construct(h: &Header) -> Result<Self, String> {
         let hs = h.hashers.first().copied().unwrap_or(HasherSpec::IDENTITY);
         let cap = h.sizes[0];
+        if h.ctor >= 1 {
+            if let Some(c) = lib!(F::convert::<K>(h.ctor, cap)) {
+                return Ok(LruSubj {
+                    c: Some(c),
+                    cb: None,
+                    _f: PhantomData,
+                });
+            }
+        }
         match lib!(F::build::<K>(cap, &hs)) {
             Ok(c) => {
                 let cb = c_cb_id::<K, F>(&c);
